@@ -9,7 +9,7 @@
    reproduces byte for byte. *)
 From Coq Require Import String NArith List Bool.
 From RC Require Import lib.Result model.Layout model.TrigTable model.RichCodec model.Str model.StrEditor model.Alloc
-  proofs.C04_proofs proofs.C04_readback proofs.C04_locations proofs.C04_cuwps proofs.C04_reload proofs.C04_reload_locs proofs.C04_reload_cuwps proofs.C04_reload_switches proofs.C04_capstone proofs.C04_switches proofs.C04_wavs model.ChkIo gen.GenConsts proofs.C07_triggers proofs.C07_slots model.RichIo proofs.C08_proofs proofs.C09_proofs proofs.Save_strings proofs.Save_refs gen.GenTrig spec.SpecTrig gen.GenFlags gen.GenConsts.
+  proofs.C04_proofs proofs.C04_readback proofs.C04_locations proofs.C04_cuwps proofs.C04_reload proofs.C04_reload_locs proofs.C04_reload_cuwps proofs.C04_reload_switches proofs.C04_capstone proofs.C04_capstone2 proofs.C04_switches proofs.C04_wavs model.ChkIo gen.GenConsts proofs.C07_triggers proofs.C07_slots model.RichIo proofs.C08_proofs proofs.C09_proofs proofs.Save_strings proofs.Save_refs gen.GenTrig spec.SpecTrig gen.GenFlags gen.GenConsts.
 Import ListNotations.
 Local Open Scope N_scope.
 
@@ -381,3 +381,37 @@ Theorem C04_a_center_view_action_survives_save_and_reload :
                     l_idx := Some i; l_elev := l_elev k0; l_oid := 0%N |}).
 Proof. exact center_view_survives_save_and_reload. Qed.
 Print Assumptions C04_a_center_view_action_survives_save_and_reload.
+
+(* A SECOND CAPSTONE, every kind of argument at once: one authored Create-Units-with-Properties action (type 11: player and unit
+   type - enumeration members -, amount - a plain number -, a location and a unit-property set) through `save` and the load of the
+   saved map: read back as the same action type with the same flags, the same player, amount and unit type, the authored location
+   and a unit-property set with the authored properties, under the numbers the save gave them *)
+Theorem C04_a_create_units_with_properties_action_survives_save_and_reload :
+  forall wd r d' cx' ls mr sw cs up new_str SL g n u l c fl v i mv slot j uv cslot,
+    save wd r = Ok d' -> decode_context d' = Ok cx' ->
+    rebuild_str r = Ok new_str -> build_str_lookup 2 new_str = Ok SL -> (N.of_nat (length (sl_by_id SL)) <= 1000000)%N ->
+    filter (named "MRGN") r = [RMrgn ls] -> rebuild_mrgn r = Ok mr ->
+    NoDup (map fst (by_idx ls)) -> (forall x, In x (fst mr) -> length (l_elev x) = 6%nat) ->
+    filter (named "UPRP") r = [RUprp cs] -> rebuild_uprp r = Ok up -> NoDup (map fst (cby_idx cs)) ->
+    (forall s, In s r -> named "UPRP" s = true -> exists cs0, s = RUprp cs0) ->
+    (forall x, In x up -> length (c_vs x) = 6%nat /\ length (c_vu x) = 7%nat /\ length (c_flags x) = 5%nat) ->
+    let cx := save_context wd SL mr sw up in
+    enum_has "PlayerId" g = true -> enum_has "UnitId" u = true ->
+    encode_entry_of cx gen_action_table action_flags_codec action_record_fields
+      (ERich 11 [("_group"%string, AEnum g); ("_amount"%string, AInt n); ("_unit"%string, AEnum u); ("_location"%string, ALoc l);
+                 ("_properties"%string, ACuwp c)] fl) = Ok v ->
+    length fl = 5%nat ->
+    find_loc_id l (snd mr) None = Some i -> (1 <= i)%N ->
+    mrgn_encode SL (fst mr) = Ok mv -> nth_error (vlist "_locations" mv) (N.to_nat (i - 1)) = Some slot -> loc_is_unused slot = false ->
+    id_by_cuwp cx c = Ok j -> (1 <= j)%N ->
+    uprp_encode up = Ok uv -> nth_error (vlist "_cuwp_slots" uv) (N.to_nat (j - 1)) = Some cslot -> cuwp_is_unused cslot = false ->
+    exists k0 k args',
+      rloc_eqb l k0 = true /\ rcuwp_eqb c k = true /\
+      decode_entry_of cx' gen_action_table "TriggerActionId" "_action_id" action_flags_codec action_record_fields v
+        = Ok (Some (ERich 11 args' fl)) /\
+      arg_get rarg "_group" args' = Ok (AEnum g) /\ arg_get rarg "_amount" args' = Ok (AInt n) /\
+      arg_get rarg "_unit" args' = Ok (AEnum u) /\
+      arg_get rarg "_location" args' = Ok (ALoc (fields_of_loc k0 i)) /\
+      arg_get rarg "_properties" args' = Ok (ACuwp (fields_of_cuwp k j)).
+Proof. exact create_units_survives_save_and_reload. Qed.
+Print Assumptions C04_a_create_units_with_properties_action_survives_save_and_reload.
